@@ -1417,6 +1417,13 @@ func (f *fragment) rangeLTUnsigned(filter *Row, bitDepth uint, predicate uint64,
 		}
 	}
 
+	// Every bit of the predicate was a leading zero: the predicate is zero
+	// and filter now holds the columns whose magnitude is zero. They are
+	// equal to the predicate, not less than it.
+	if leadingZeros && !allowEquality {
+		return NewRow(), nil
+	}
+
 	return filter, nil
 }
 
